@@ -334,7 +334,13 @@ pub fn sampled_op(r: &mut Rng, pool: &mut Vec<u64>) -> Ints {
             let nin = r.range(0, 4);
             let mut v = vec![120, nin as i128];
             for _ in 0..nin {
-                v.push(r.below(1000) as i128 + 100_000);
+                // half of the input pairs name a key from the pool (probably tracked, with a
+                // possibly stale cost), the others a key that cannot be tracked
+                if r.chance(1, 2) {
+                    v.push(pick_hash(r, pool) as i128);
+                } else {
+                    v.push(r.below(1000) as i128 + 100_000);
+                }
                 v.push(r.below(50) as i128);
             }
             v
